@@ -84,26 +84,71 @@ pub fn retire_probe(addr: usize) {
     };
     // safety: the pointer is registered for exactly the duration of sched::run in `execute`
     let tgt: &Tgt = unsafe { &*(tgt_ptr as *const Tgt) };
-    let reachable = match tgt {
+    fn look<V>(d: &flurry::map_verif::Dump<'_, Key, V>, addr: usize) -> (bool, String, bool) {
+        let r = crate::inspect::reachable_addresses(d);
+        if !r.contains(&addr) {
+            return (false, String::new(), false);
+        }
+        let w = crate::inspect::describe_address(d, addr);
+        // the hand-over window of a bin migration: the new bins are already stored in the table
+        // under construction, the old bin is not yet replaced by the forwarding marker, and the
+        // two share nodes and values
+        let only_old = d.next.is_some() && !w.contains("table under construction");
+        (true, w, only_old)
+    }
+    let (reachable, whence, only_via_old_table) = match tgt {
         Tgt::Map(m) => {
             let g = m.guard();
-            crate::inspect::reachable_addresses(&m.verif_dump(&g))
+            look(&m.verif_dump(&g), addr)
         }
         Tgt::Set(s) => {
             let g = s.guard();
-            crate::inspect::reachable_addresses(&s.verif_map().verif_dump(&g))
+            look(&s.verif_map().verif_dump(&g), addr)
         }
     };
+    let opname = CUR_OP.with(|c| c.get());
     let mut pr = RETIRE_PROBE.lock().unwrap();
     if let Some((_, errs, n)) = pr.as_mut() {
         *n += 1;
-        if reachable.contains(&addr) && errs.len() < 4 {
+        if reachable && errs.len() < 4 {
+            let how = if opname == "clear" && only_via_old_table {
+                "retired by clear() while a resize is in flight: clear was sweeping the table under construction, where it had already unlinked the object, but the not yet forwarded bin of the current table still shares it".to_string()
+            } else {
+                format!("retired by {}()", opname)
+            };
             errs.push(format!(
-                "at clock {} thread {:?} retired an object that is still reachable from the map (a reader that pins a guard after this instant can still find it, and seize no longer counts that reader)",
+                "at clock {} thread {:?} retired an object that is still reachable from the map ({}; {}); a reader that pins a guard after this instant can still find it, and seize no longer counts that reader",
                 sched::now(),
-                sched::sim_id()
+                sched::sim_id(),
+                how,
+                whence
             ));
         }
+    }
+}
+
+thread_local! {
+    /// name of the operation the calling simulated thread is executing (for diagnostics)
+    static CUR_OP: std::cell::Cell<&'static str> = const { std::cell::Cell::new("") };
+}
+
+fn op_name(op: &Op) -> &'static str {
+    match op {
+        Op::Get(_) => "get",
+        Op::Contains(_) => "contains_key",
+        Op::GetKV(_) => "get_key_value",
+        Op::Insert(..) => "insert",
+        Op::TryInsert(..) => "try_insert",
+        Op::Remove(_) => "remove",
+        Op::RemoveEntry(_) => "remove_entry",
+        Op::Compute(..) => "compute_if_present",
+        Op::Retain(_) => "retain",
+        Op::RetainForce(_) => "retain_force",
+        Op::Clear => "clear",
+        Op::Reserve(_) => "reserve",
+        Op::Extend(_) => "extend",
+        Op::Collect(..) => "collect",
+        _ => "other",
     }
 }
 
@@ -1080,6 +1125,7 @@ pub fn execute(p: &Program, mut setup: RunSetup, opts: &ExecOpts) -> RunResult {
                     continue;
                 }
                 ctx.new_kinst = NONE;
+                CUR_OP.with(|c| c.set(op_name(op)));
                 let inv = sched::op_start();
                 // record the invocation first so that a wedged run still shows the pending op
                 let r = std::panic::catch_unwind(std::panic::AssertUnwindSafe(|| exec_op(&mut ctx, op)));
